@@ -381,6 +381,9 @@ class LexicalEnum(Lexical, LangCommonEnum, lexcopy=True):
     strings: frozenset[str]
     "Name, label, or other strings unique to a member."
 
+    # Keep the enum read-only setter, instead of the copy from Lexical.
+    __setattr__ = LangCommonEnum.__setattr__
+
     def __eq__(self, other):
         'Allow equality with the string name.'
         if self is other:
